@@ -14,7 +14,7 @@ CONSTANTS
   NoIP = "noip"
   RouterIPs = {"r1", "r2", "r3"}
   NilMAC = "nilmac"
-  SafeWake = FALSE
+  SafeWake = TRUE
 CONSTRAINT Mark
 CONSTRAINT Last
 POSTCONDITION TraceAccepted
